@@ -142,6 +142,7 @@ func runConv(writes [][]byte, expect []int) (res convResult) {
 // runConvOpt with race=true sends all writes back to back (no waiting in between) while the write callback
 // is slow, so that the reader goroutine runs ahead of the writer; replies are collected at the end.
 var convStarved atomic.Int32
+var convTail atomic.Int32
 
 func runConvOpt(writes [][]byte, expect []int, race bool) (res convResult) {
 	convStart()
@@ -168,6 +169,12 @@ func runConvOpt(writes [][]byte, expect []int, race bool) (res convResult) {
 		return res
 	}
 	defer func() {
+		// every third conversation ends in the middle of a frame (a terminal that loses power while sending): what one
+		// connection leaves unfinished must not be seen by the connections that come after it
+		if convTail.Add(1)%3 == 0 && !res.closed {
+			_, _ = c.Write([]byte{0x7e, 0x02, 0x00, 0x00, 0x1c, 0x01, 0x23, 0x45})
+			time.Sleep(3 * time.Millisecond)
+		}
 		c.Close()
 		// wait for the leave event so that the phone key is free again for the next conversation
 		for i := 0; i < 400; i++ {
@@ -202,6 +209,9 @@ func runConvOpt(writes [][]byte, expect []int, race bool) (res convResult) {
 		wait := 5 * time.Second
 		if convStarved.Load() >= 3 {
 			wait = 400 * time.Millisecond
+		}
+		if convStarved.Load() >= 30 { // the server answers (almost) nothing any more: the verdict is clear, finish the run
+			wait = 25 * time.Millisecond
 		}
 		deadline := time.Now().Add(wait)
 		quiet := 15 * time.Millisecond // also linger a little for replies that should NOT come
